@@ -3,5 +3,5 @@ CONSTANTS
   Dev <- mc_NoDev
   Vals <- mc_Vals
   Names <- mc_Names
-  MaxPos = 1
+  MaxPos = 2
 INVARIANT Inv
